@@ -308,7 +308,8 @@ def run(ctx):
     from rules import C04 as _c04
     from ovsa.engine import Ctx as _Ctx
     sub4 = _Ctx("C04", prog, ctx.root, "quick")
-    getattr(_c04, "_run_base", _c04.run)(sub4)
+    from rules.round3 import run_lender as _run_lender
+    _run_lender(_c04, sub4, ctx)
     n4 = 0
     for i_ in sub4.instances:
         if i_["rule"] == "R4.3" and i_["inst"].startswith("thread_set_state:TH_ST_"):
@@ -318,7 +319,7 @@ def run(ctx):
             else:
                 ctx.fail("R8.3", "thread-flags:" + i_["inst"], i_["where"], i_["what"] +
                          " (the models' thread-state preconditions are tested on these flags)")
-    ctx.need(n4 >= 6, "R8.3: thread flag instances not found (%d)" % n4)
+    ctx.need(n4 >= 6 or getattr(sub4, "lender_broken", None), "R8.3: thread flag instances not found (%d)" % n4)
     # the end-of-trace lint visits every thread
     from rules import listlinks
     listlinks.check(ctx, "R8.4", lambda file, name: file.startswith("src/emu/") and file.endswith("/setup.c") and
